@@ -109,7 +109,8 @@ def check_parses(res, prop, parses, hist, key_fn=None):
 
 def run_c05(t, tier, res):
     mode = t.draw(3)
-    flavour = {"nonascii": t.chance(1, 3), "sites": t.chance(1, 3), "nonbmp": t.chance(1, 6), "awkward": t.chance(1, 12)}
+    flavour = {"nonascii": t.chance(1, 3), "sites": t.chance(1, 3), "nonbmp": t.chance(1, 6), "awkward": t.chance(1, 12),
+               "tricky": t.chance(2, 3)}
     if mode < 2:
         pws, opts = trainer.gen_list(t, flavour)
         extra = ["1qaz2019", "#12019", "a@b.comwww.c.org", "No.1qaz", "password2019monkey", "x19991999", "qwer1234asdf",
